@@ -169,8 +169,87 @@ def lastSortTags (text : Str) : List String :=
   | none => ["notok", "nomatch"]
   | some i => ["tok", if isPrefix sortLit (text.drop (i + 1)) then "match" else "nomatch"]
 
+def boxDocJ : Option (Option J) → Lean.Json
+  | none => .null
+  | some v => Lean.Json.mkObj [("v", match v with | some d => docJ d | none => .null)]
+
+def boxPvalJ : Option PVal → Lean.Json
+  | none => .null
+  | some v => Lean.Json.mkObj [("v", pvalJ v)]
+
+def getLeftDoc (a : Lean.Json) : Except String (Option (Option J)) :=
+  match a.getObjVal? "left" with
+  | .ok .null => .ok none
+  | .error _ => .ok none
+  | .ok b => match b.getObjVal? "v" with
+    | .ok .null => .ok (some none)
+    | .ok d => do
+      let x ← docOf d
+      return some (some x)
+    | .error e => .error e
+
+/-- leftover `after` of a composite body: a flat dict `{"d": [[k, sval], ...]}` -/
+def flatOf (j : Lean.Json) : Except String PVal := do
+  let ps ← getArr j "d"
+  let kvs ← ps.mapM fun p =>
+    match p with
+    | .arr #[.str k, v] => do
+      let pv ← pvalOf v
+      match pv with
+      | .s sv => pure (k.toList, sv)
+      | _ => .error "nested dict"
+    | _ => .error "bad flat member"
+  return .dict kvs
+
+def getLeftAfter (a : Lean.Json) : Except String (Option PVal) :=
+  match a.getObjVal? "left" with
+  | .ok .null => .ok none
+  | .error _ => .ok none
+  | .ok b => match b.getObjVal? "v" with
+    | .ok d => do
+      let x ← flatOf d
+      return some x
+    | .error e => .error e
+
 def handle (op : String) (a : Lean.Json) : Except String Lean.Json := do
   match op with
+  | "cax_session" =>
+    let cs ← getArr a "calls"
+    let calls ← cs.mapM fun c => do
+      let d ← getDoc c
+      let pit ← getBool c "pit"
+      let path ← getStrList c "path"
+      let ht ← pvalOf ((c.getObjVal? "hits_total").toOption.getD .null)
+      pure ({ pit := pit, path := path, hitsTotal := ht, resp := d } : CaxCall)
+    return ok (arr ((session caxCallOn () calls).map (exceptJ dictJ)))
+  | "sax_session" =>
+    let cs ← getArr a "calls"
+    let st ← styleOf a
+    let calls ← cs.mapM fun c => do
+      let d ← getDoc c
+      let pit ← getBool c "pit"
+      let ht ← pvalOf ((c.getObjVal? "hits_total").toOption.getD .null)
+      pure ({ pit := pit, hitsTotal := ht, resp := d } : SaxCall)
+    return ok (arr ((session (saxCallOn st) () calls).map
+      (exceptJ (fun (p : List (Option Str × PVal) × Option J) => arr [dictJ p.1, optDocJ p.2]))))
+  | "bulk_session" =>
+    let cs ← getArr a "calls"
+    let calls ← cs.mapM fun c => do
+      let d ← getDoc c
+      let det ← getBool c "detailed"
+      let bs ← getInt c "bulk_size"
+      let ud ← getBool c "unit_docs"
+      pure ({ detailed := det, bulkSize := bs, unitDocs := ud, resp := d } : BulkCall)
+    return ok (arr ((session bulkCallOn () calls).map (exceptJ statsJ)))
+  | "parse_session" =>
+    let cs ← getArr a "calls"
+    let calls ← cs.mapM fun c => do
+      let d ← getDoc c
+      let props ← getStrList c "props"
+      let lists ← getStrList c "lists"
+      let objs ← getStrList c "objs"
+      pure ({ props := props, lists := lists, objs := objs, resp := d } : ParseCall)
+    return ok (arr ((session parseCallOn () calls).map dictJ))
   | "render" =>
     let d ← getDoc a
     let st ← styleOf a
@@ -223,15 +302,17 @@ def handle (op : String) (a : Lean.Json) : Except String Lean.Json := do
     let pit ← getBool a "pit"
     let size ← getNat a "size"
     let total ← getNat a "pages"
-    let r := searchAfterQuery st pit size total ds
-    return ok (exceptJ accJ r) [exceptTag r]
+    let left ← getLeftDoc a
+    let r := saQueryOn st left { pit := pit, size := size, total := total, resps := ds }
+    return ok (Lean.Json.mkObj [("res", exceptJ accJ r.2.1), ("first", boxDocJ r.2.2), ("left_after", boxDocJ r.1)]) [exceptTag r.2.1]
   | "ca_query" =>
     let ds ← getDocs a "docs"
     let pit ← getBool a "pit"
     let path ← getStrList a "path"
     let total ← getNat a "pages"
-    let r := compositeQuery pit path total ds
-    return ok (exceptJ accJ r) [exceptTag r]
+    let left ← getLeftAfter a
+    let r := caQueryOn left { pit := pit, path := path, total := total, resps := ds }
+    return ok (Lean.Json.mkObj [("res", exceptJ accJ r.2.1), ("first", boxPvalJ r.2.2), ("left_after", boxPvalJ r.1)]) [exceptTag r.2.1]
   | "scroll_query" =>
     let ds ← getDocs a "docs"
     let size ← getOptNat a "size"
